@@ -131,6 +131,10 @@ func init() {
 			t := a[0].(Struct)
 			return m.C.BvBin(smt.OBvSub, m.C.BVC(uint64(m.now), 64), t[1].(T))
 		},
+		"time.Until": func(m *Machine, fr *frame, fn *ssa.Function, a []Value) Value {
+			t := a[0].(Struct)
+			return m.C.BvBin(smt.OBvSub, t[1].(T), m.C.BVC(uint64(m.now), 64))
+		},
 		"(time.Time).Sub": func(m *Machine, fr *frame, fn *ssa.Function, a []Value) Value {
 			return m.C.BvBin(smt.OBvSub, a[0].(Struct)[1].(T), a[1].(Struct)[1].(T))
 		},
